@@ -36,6 +36,7 @@ func runC07(c *Ctx) {
 	c07Funnel(c)
 	c07ShutdownFlush(c)
 	c07Cursor(c)
+	c07RecordedImmutable(c)
 }
 
 // c07ShutdownFlush: D4 — entries still in memory are flushed to the file on
@@ -126,6 +127,105 @@ func c07Cursor(c *Ctx) {
 	r.Check(nEdges > 0 && len(bad) == 0, "C07-D5", "cursor-follows-every-scanned-record", p.FnPos(fn),
 		"after a record was scanned, the returned cursor is always that record's timestamp (or 0 at end of file)",
 		fmt.Sprintf("the returned paging cursor does not advance for some scanned records (%v): a page of non-matching records returns a stale or empty cursor and older matches become unreachable", bad))
+	c07SkipOnExactHit(c)
+}
+
+// c07SkipOnExactHit: positioning the file reader for a cursor reads and
+// discards one record — the one *with* the cursor's timestamp.  That is right
+// only when the seek really landed on that record; when the cursor is newer
+// than everything in the files (it is the time of an entry still in memory)
+// the reader stands at the newest record, which must not be discarded.
+func c07SkipOnExactHit(c *Ctx) {
+	p, r := c.P, c.R
+	fn := p.Fn("(*querylog.qLogReader).seekRecord")
+	if fn == nil {
+		r.Undecided("C07-D5", "seekRecord", "-", "anchor not found")
+		return
+	}
+	var skips []*ssa.Call
+	for _, call := range core.CallsTo(fn, "(*querylog.qLogReader).ReadNext") {
+		ci, ok := call.Instr.(*ssa.Call)
+		if !ok {
+			continue
+		}
+		used := false
+		for _, u := range core.Users(ci) {
+			if e, ok := u.(*ssa.Extract); ok && e.Index == 0 && len(core.Users(e)) > 0 {
+				used = true
+			}
+		}
+		if !used {
+			skips = append(skips, ci)
+		}
+	}
+	if len(skips) == 0 {
+		r.Ok("C07-D5", "skip-only-on-exact-hit", p.FnPos(fn), "no record is discarded while positioning the reader")
+		return
+	}
+	// the seek call whose 'found' result guards the skip
+	var seek *ssa.Call
+	for _, call := range core.Calls(fn) {
+		ci, ok := call.Instr.(*ssa.Call)
+		if !ok || ci.Call.StaticCallee() == nil || !strings.Contains(strings.ToLower(ci.Call.StaticCallee().Name()), "seekts") {
+			continue
+		}
+		seek = ci
+	}
+	okGuard := false
+	why := "the record read and discarded after the seek is not conditional on the seek having found the cursor's own record"
+	if seek != nil {
+		guard, n := core.CondEdges(fn, func(at core.Atom) (bool, bool) {
+			if at.Op != token.ILLEGAL {
+				return false, false
+			}
+			e, ok := at.Base.(*ssa.Extract)
+			if !ok || e.Tuple != ssa.Value(seek) {
+				return false, false
+			}
+			bt, ok := e.Type().Underlying().(*types.Basic)
+			return ok && bt.Kind() == types.Bool, true
+		})
+		if n > 0 {
+			okGuard = true
+			for _, sk := range skips {
+				off, _ := core.UnguardedSinks(fn, func(in ssa.Instruction) bool { return in == ssa.Instruction(sk) }, guard)
+				if len(off) > 0 {
+					okGuard = false
+				}
+			}
+		}
+		// the seek reports 'found' only for an exact hit: false on the too-late / seek-to-start path
+		if okGuard {
+			callee := seek.Call.StaticCallee()
+			bad := false
+			for _, b := range callee.Blocks {
+				ret, ok := b.Instrs[len(b.Instrs)-1].(*ssa.Return)
+				if !ok || len(ret.Results) != 2 {
+					continue
+				}
+				fv, isC := core.ConstBool(ret.Results[0])
+				if !isC {
+					bad, why = true, "the seek's 'found' result is not a constant per return"
+					continue
+				}
+				// a return whose error comes from SeekStart (the too-late path) must say not found
+				if fv {
+					for _, l := range core.FlattenPhi(ret.Results[1]) {
+						if core.IsCallResult(l, -1, "(*querylog.qLogReader).SeekStart") {
+							bad, why = true, "the seek reports 'found' although it only moved to the start of the newest file"
+						}
+					}
+					if !core.IsNilConst(ret.Results[1]) {
+						bad, why = true, "the seek reports 'found' together with an error"
+					}
+				}
+			}
+			okGuard = !bad
+		}
+	}
+	r.Check(okGuard, "C07-D5", "skip-only-on-exact-hit", p.InstrPos(skips[0]),
+		"the record with the cursor's timestamp is skipped only when the seek landed on it; a cursor newer than all file records (an entry still in memory) skips nothing",
+		why+": paging with a cursor that lies in the memory buffer drops the newest record of the file")
 }
 
 // handlerAssertKind: the token kind the handler literal asserts on its token
@@ -626,4 +726,49 @@ func c07Funnel(c *Ctx) {
 		}
 	}
 	r.Floor("C07-D3", "file-writers", n, 1)
+}
+
+// c07RecordedImmutable: D6.  Entries in the memory buffer are shared with
+// every search result (shallow clones); rendering must not change them.  The
+// address mutator (anonymiser) is therefore applied only to a copy: no value
+// passed to an aghnet.IPMutFunc in the query log aliases the IP field of an
+// entry.
+func c07RecordedImmutable(c *Ctx) {
+	p, r := c.P, c.R
+	n := 0
+	var bad []string
+	stop := func(v ssa.Value) string {
+		if call, ok := v.(*ssa.Call); ok {
+			k := core.CalleeKey(call.Common())
+			if strings.HasPrefix(k, "slices.Clone") || strings.HasPrefix(k, "bytes.Clone") || strings.HasSuffix(k, "netip.Addr).AsSlice") {
+				return "copy"
+			}
+			if bi, ok := call.Common().Value.(*ssa.Builtin); ok && bi.Name() == "append" && len(call.Common().Args) > 0 {
+				if core.IsNilConst(call.Common().Args[0]) {
+					return "copy"
+				}
+			}
+		}
+		return ""
+	}
+	for _, fn := range p.ModFnsIn("querylog") {
+		for _, call := range core.Calls(fn) {
+			if call.Common.IsInvoke() || call.Common.StaticCallee() != nil || len(call.Common.Args) != 1 {
+				continue
+			}
+			if !strings.HasSuffix(core.TypeKey(call.Common.Value.Type()), "aghnet.IPMutFunc") {
+				continue
+			}
+			n++
+			for _, o := range core.Origins(call.Common.Args[0], core.ProvOpts{Prog: p, Stop: stop, InterprocDepth: 2}) {
+				if o.Kind == "field" && strings.HasSuffix(o.Key, "logEntry.IP") {
+					bad = append(bad, fmt.Sprintf("%s at %s mutates the recorded address itself", core.FuncKey(fn), p.InstrPos(call.Instr)))
+				}
+			}
+		}
+	}
+	sort.Strings(bad)
+	r.Check(n > 0 && len(bad) == 0, "C07-D6", "anonymiser-on-copies-only", "-",
+		fmt.Sprintf("the %d applications of the address mutator in the query log work on copies; recorded entries keep the client they were recorded with", n),
+		"the address mutator is applied to the stored address of an entry: entries still in memory (and then the file) lose the client they were recorded with", bad...)
 }
